@@ -27,6 +27,9 @@ Inductive obs :=
 | Val (inner : Z) (display debug written : string)
 | Eq (e1 e2 : bool).
 
+(** abbreviation used by the case printer when the three renderings are the same text *)
+Definition ValS (inner : Z) (text : string) : obs := Val inner text text text.
+
 Inductive case := C (M : Z) (o : op) (r : obs).
 
 Definition bin (M : Z) (k : binop) : Z -> Z -> option Z :=
@@ -75,6 +78,29 @@ Definition powmod (b e m : Z) : Z :=
 
 Definition decimal (v : Z) : string := NilZero.string_of_uint (N.to_uint (Z.to_N v)).
 
+(** value of a decimal text (most significant digit first), used to state that printing is canonical *)
+Fixpoint slen (s : string) : Z := match s with EmptyString => 0 | String _ s' => 1 + slen s' end.
+Fixpoint sval (s : string) : Z :=
+  match s with
+  | EmptyString => 0
+  | String c s' => (Z.of_N (Ascii.N_of_ascii c) - 48) * 10 ^ slen s' + sval s'
+  end.
+
+(** [s] is the canonical decimal numeral of [i]: non-empty, digits only, no leading zero
+    (except "0" itself), and its value is [i] *)
+Definition is_digit (c : Ascii.ascii) : bool :=
+  let n := Z.of_N (Ascii.N_of_ascii c) in (48 <=? n) && (n <=? 57).
+Fixpoint all_digits (s : string) : bool :=
+  match s with EmptyString => true | String c s' => is_digit c && all_digits s' end.
+Definition canon_dec (i : Z) (s : string) : bool :=
+  match s with
+  | EmptyString => false
+  | String c s' =>
+      all_digits s
+      && (negb (Z.of_N (Ascii.N_of_ascii c) =? 48) || match s' with EmptyString => true | _ => false end)
+      && (sval s =? i)
+  end.
+
 Definition is_i64 (v : Z) : bool := (- 2 ^ 63 <=? v) && (v <? 2 ^ 63).
 Definition is_u64 (v : Z) : bool := (0 <=? v) && (v <? 2 ^ 64).
 
@@ -102,7 +128,8 @@ Definition spec_value (M : Z) (o : op) (i : Z) : bool :=
   | OEq _ _ => false
   end.
 
-Definition spec_check (c : case) : bool :=
+(** numeric part: canonical range and the ring/field equation *)
+Definition spec_num (c : case) : bool :=
   let '(C M o r) := c in
   if negb (in_scope M o) then true else
   match o, r with
@@ -110,10 +137,30 @@ Definition spec_check (c : case) : bool :=
   | OEq a b, Eq e1 e2 => let e := (a mod M =? b mod M) in Bool.eqb e e1 && Bool.eqb e e2
   | OEq _ _, _ => false
   | _, Eq _ _ => false
-  | _, Val i d g w =>
-      (0 <=? i) && (i <? M) && spec_value M o i
-      && String.eqb (decimal i) d && String.eqb (decimal i) g && String.eqb (decimal i) w
+  | _, Val i _ _ _ => (0 <=? i) && (i <? M) && spec_value M o i
   end.
+
+(** textual part: Display, Debug and Writable all print the decimal form of inner() *)
+Definition spec_text (c : case) : bool :=
+  let '(C M o r) := c in
+  if negb (in_scope M o) then true else
+  match r with
+  | Val i d g w => canon_dec i d && String.eqb d g && String.eqb d w
+  | _ => true
+  end.
+
+(** the same judged with the standard library's decimal printer (kept as a cross-check of
+    [canon_dec]; evaluated on every case by [spec_check]) *)
+Definition spec_text_stdlib (c : case) : bool :=
+  let '(C M o r) := c in
+  if negb (in_scope M o) then true else
+  match r with
+  | Val i d g w => String.eqb (decimal i) d && String.eqb (decimal i) g && String.eqb (decimal i) w
+  | _ => true
+  end.
+
+Definition spec_strict (c : case) : bool := spec_num c && spec_text c.
+Definition spec_check (c : case) : bool := spec_strict c && spec_text_stdlib c.
 
 (** what the model computes on the input of a case (for replay files) *)
 Definition explain (c : case) : option Z * option bool :=
